@@ -379,7 +379,9 @@ class C11(Profile):
         if fired and fired[0].startswith('VANISH'):
             # a file was really deleted under the reader: that version is gone (like an operator deleting it), the read itself
             # must tolerate it silently (documented: file-not-found between listing and open is skipped)
-            gone = {k for k, (nj, rel) in (before_files or {}).items() if rel in sw.disk.vanished[nvan:]}     # this op's, not earlier ones'
+            van = sw.disk.vanished[nvan:]     # this op's, not earlier ones'; a vanished directory takes every file under it along
+            gone = {k for k, (nj, rel) in (before_files or {}).items()
+                    if any(('fs/' + v == rel or rel.startswith('fs/' + v + '/') or v == rel or rel.startswith(v + '/')) for v in van)}
             for k in gone:
                 model.pop(k, None)
             world.probe('file_vanished_under_reader')
